@@ -35,6 +35,8 @@ def run(ctx, rep):
     from ..rules_parse import sign_distrib, prefix_remainder
     sign_distrib(rep, ctx.prog("Q"))
     prefix_remainder(rep, ctx.prog("Q"))
+    from ..rules_tz import iter_strict
+    iter_strict(rep, ctx.prog("Q"))
 
 
 def validated_field(ctx, rep, rule="VALIDATED-FIELD"):
